@@ -60,6 +60,7 @@ ASSUMPTIONS = ['node ids are unique among siblings (id kind short-dup: '
                'only among siblings)', 'the root row is not '
                'displayed (dtml-tree shows the children of its object)']
 CASE_CPU_SECONDS = 600.0
+CASE_CPU_SECONDS_QUICK = 15.0
 
 LINK = re.compile(r'<a name="([^"]*)" href="([^"?]*)\?tree-([ec])=([^#"]*)#')
 ROW = re.compile(r'<tr>\n(.*?)</tr>\n', re.S)
